@@ -198,6 +198,23 @@ func c04Update(x *mc.Cell, pull bool) {
 				if closed || after.Status == datatransfer.Failed || after.Status == datatransfer.Failing {
 					x.Violate("C04", sig("accepted-update-closed-or-failed"), ctx, rep)
 				}
+				if state == "finalizing" {
+					// C03: a responder that requires finalization stays in Finalizing, reporting itself paused, until an
+					// update (or resume) releases it, and only then completes.
+					inFin := after.Status == datatransfer.Finalizing
+					switch {
+					case a.Fin:
+						if !inFin || !after.RPaused || !reply.IsPaused() || !reply.IsComplete() {
+							x.Violate("C03", sig(fmt.Sprintf("non-releasing-update-in-finalization;status=%s;rpaused=%v;reply-paused=%v;reply-complete=%v", datatransfer.Statuses[after.Status], after.RPaused, reply.IsPaused(), reply.IsComplete())),
+								"an update that still requires finalization must leave the responder in Finalizing, paused, and announce a paused Complete: "+ctx, rep)
+						}
+					case !a.Force:
+						if (after.Status != datatransfer.Completed && after.Status != datatransfer.Completing) || reply.IsPaused() || !reply.IsComplete() {
+							x.Violate("C03", sig(fmt.Sprintf("releasing-update-in-finalization;status=%s;reply-paused=%v;reply-complete=%v", datatransfer.Statuses[after.Status], reply.IsPaused(), reply.IsComplete())),
+								"an update that lifts the finalization requirement releases the responder: it completes and sends an un-paused Complete: "+ctx, rep)
+						}
+					}
+				}
 				if after.Limit != a.Limit || after.ReqFin != a.Fin {
 					x.Violate("C04", sig("limit-or-finalization-not-recorded"), fmt.Sprintf("channel has limit=%d fin=%v: %s", after.Limit, after.ReqFin, ctx), rep)
 				}
@@ -207,8 +224,11 @@ func c04Update(x *mc.Cell, pull bool) {
 }
 
 func init() {
-	mc.Register("C04", "validation-updates/push", "both", func(x *mc.Cell) { c04Update(x, false) })
-	mc.Register("C04", "validation-updates/pull", "both", func(x *mc.Cell) { c04Update(x, true) })
+	// the cells also carry C02 (terminal channels unchanged), C03 (finalization release) and C05 (role) oracles
+	for _, p := range []string{"C04", "C02", "C03", "C05"} {
+		mc.Register(p, "validation-updates/push", "both", func(x *mc.Cell) { c04Update(x, false) })
+		mc.Register(p, "validation-updates/pull", "both", func(x *mc.Cell) { c04Update(x, true) })
+	}
 }
 
 func stateClass(s string) string {
